@@ -223,6 +223,7 @@ type WorkerResult struct {
 	Violations []FoundViolation `json:"violations"`
 	Trouble    string           `json:"trouble,omitempty"`
 	Hashes     string           `json:"hashes_file,omitempty"`
+	Cover      map[int]uint32   `json:"cover,omitempty"`
 	Distinct   int64            `json:"distinct"`
 	Nontrivial int64            `json:"nontrivial"`
 }
@@ -269,6 +270,14 @@ func RunWorker(h Harness, o WorkerOpts) (res WorkerResult) {
 			}
 		}
 		res.WallS = time.Since(start).Seconds()
+		for i, n := range simrt.CoverHits {
+			if n > 0 {
+				if res.Cover == nil {
+					res.Cover = map[int]uint32{}
+				}
+				res.Cover[i] = n
+			}
+		}
 		res.Distinct = int64(len(hashes))
 		res.Nontrivial = int64(len(nontrivial))
 		if o.HashFile != "" {
